@@ -93,6 +93,15 @@ def run(ctx):
                 if not st.holds(("has", m.entry, C("other_headers"))):
                     shape_miss.append("entry has 'other_headers'")
                 shape_miss += missing_hexconj(st, oh, None)
+            if not shape_miss:
+                # ... and of exactly one of the two shapes: a raw entry has the one field, an OpenPGP
+                # entry its two or three - anything carrying other fields is malformed and counts
+                # for nothing (in raw mode the library admits both shapes)
+                from .c15 import gpg_missing, raw_missing
+
+                exact = (not gpg_missing(st, m.entry)) if gpg else (not raw_missing(st, m.entry) or not gpg_missing(st, m.entry))
+                if not exact and not _exact_by_predicate(eng, st, m.entry, gpg):
+                    shape_miss.append("the entry has exactly the fields of %s entry" % ("a raw or an OpenPGP" if not gpg else "an OpenPGP"))
             ctx.ob("R2", "insert-entrygrammar|%s|%s" % ("gpg" if gpg else "raw", s.key()), s.loc(), "insertion (%s mode) %s" % ("OpenPGP" if gpg else "raw", "is dominated by the entry grammar" if not shape_miss else "is not dominated by the entry grammar: missing " + "; ".join(shape_miss)), not shape_miss)
             hits, near = m._verify_events(bp, gpg=gpg)
             detail = {}
@@ -157,3 +166,32 @@ def _primitive(ctx, q, gpg):
         ctx.ob("R4", "primitive-accept|%s" % q if good else "primitive-accept|%s|path%d" % (q, i), fn_site.loc(), "%s %s" % (q, "returns normally only after key.verify(unhex(signature), message) on its own arguments" if good else "can return normally without a successful key.verify over its own key, signature and data arguments"), good)
     esc = [x for x, _c in sm.escapes if x.exc == "InvalidSignature" and x.origin == "crypto"]
     ctx.ob("R4", "primitive-propagates|%s" % q, fn_site.loc(), "%s %s" % (q, "lets InvalidSignature from the crypto library escape to its caller" if esc else "swallows InvalidSignature (a bad signature would look like success)"), bool(esc) and n > 0)
+
+
+def _exact_by_predicate(eng, st, entry, gpg):
+    """the path holds is_x(entry) is True / ok(checkformat_x(entry)) for a predicate / checker of
+    common.py that is itself exact for the entry grammar of the mode (C15's deciders)"""
+    from sa.terms import is_call
+
+    from .c15 import predicate_exact, raiser_exact
+
+    kind = "gpg" if gpg else "raw|gpg"
+    for f in st.closure():
+        call = None
+        if f[0] == "ret" and f[2] is True and is_call(f[1]) and f[1][1].startswith("repo:common.") and f[1][2] and f[1][2][0] == entry:
+            call, fn = f[1], predicate_exact
+        elif f[0] == "ok" and is_call(f[1]) and f[1][1].startswith("repo:common.checkformat_") and f[1][2] and f[1][2][0] == entry:
+            call, fn = f[1], raiser_exact
+        if call is None:
+            continue
+        q = call[1][5:].split("[")[0].split("<")[0]
+        cache = eng.__dict__.setdefault("_entry_exact", {})
+        key = (q, kind)
+        if key not in cache:
+            try:
+                cache[key] = fn(eng, q, kind)[0] or (not gpg and fn(eng, q, "gpg")[0])
+            except Exception:
+                cache[key] = False
+        if cache[key]:
+            return True
+    return False
